@@ -19,6 +19,12 @@ post_tags = sa.Table(
     sa.Column("tag_id", sa.ForeignKey("tag.id"), primary_key=True),
 )
 
+post_labels = sa.Table(
+    "post_labels", Base.metadata,
+    sa.Column("post_id", sa.ForeignKey("post.id"), primary_key=True),
+    sa.Column("tag_id", sa.ForeignKey("tag.id"), primary_key=True),
+)
+
 
 class T(Base):
     __tablename__ = "t"
@@ -101,6 +107,7 @@ class Post(Base):
     home = relationship("Country")
     comments = relationship("Comment", back_populates="post")
     tags = relationship("Tag", secondary=post_tags, back_populates="posts")
+    labels = relationship("Tag", secondary=post_labels)
 
 
 class Comment(Base):
@@ -186,7 +193,7 @@ def load_scalar(rows):
 
 def load_relational(inst):
     with engine().begin() as con:
-        for tb in (post_tags, Comment.__table__, Post.__table__, Tag.__table__, Profile.__table__,
+        for tb in (post_tags, post_labels, Comment.__table__, Post.__table__, Tag.__table__, Profile.__table__,
                    Author.__table__, Country.__table__, Region.__table__):
             con.execute(tb.delete())
         for name, tb in (("region", Region.__table__), ("country", Country.__table__), ("author", Author.__table__),
@@ -198,3 +205,6 @@ def load_relational(inst):
         if inst["post_tags"]:
             con.execute(post_tags.insert(), [{"post_id": p, "tag_id": t}
                                              for p, t in inst["post_tags"]])
+        if inst.get("post_labels"):
+            con.execute(post_labels.insert(), [{"post_id": p, "tag_id": t}
+                                               for p, t in inst["post_labels"]])
